@@ -42,6 +42,9 @@ structure SObj where
   /-- per parameter: (stored on the instance?, `getattr` value) -/
   values : List (String × Bool × SVal)
   pcopies : List (String × Option (Int × Int) × Bool)
+  /-- per Selector parameter: (has its own Parameter copy?, the objects it lists, the values of its names) —
+  those of the instance's copy if there is one, else those of the class Parameter -/
+  sel : List (String × Bool × List Int × List Int)
   attrs : List (String × SVal)
   watchers : List (String × List SWatcher)
   dyn : List (String × List SDyn)
@@ -128,15 +131,21 @@ def kindName : CKind → String
 
 def renderObj (w : World) (order corder : List Nat) (o : Nat) : SObj :=
   match w.objs[o]? with
-  | Option.none => { cls := "?", values := [], pcopies := [], attrs := [], watchers := [], dyn := [] }
+  | Option.none => { cls := "?", values := [], pcopies := [], sel := [], attrs := [], watchers := [], dyn := [] }
   | some ob =>
     match w.cls? ob with
-    | Option.none => { cls := "?", values := [], pcopies := [], attrs := [], watchers := [], dyn := [] }
+    | Option.none => { cls := "?", values := [], pcopies := [], sel := [], attrs := [], watchers := [], dyn := [] }
     | some c =>
       { cls := c.name,
         values := c.params.filterMap (fun d => (w.getVal o d.name).map fun v =>
           (d.name, (lookup ob.values d.name).isSome, renderVal w order corder v)),
         pcopies := c.params.filterMap (fun d => (lookup ob.pcopies d.name).map fun pc => (d.name, pc.bounds, pc.constant)),
+        sel := c.params.filterMap (fun d =>
+          if d.sel = .notSel then Option.none else
+          match (lookup ob.pcopies d.name).bind (·.slots), w.clsSlot ob.cls d.name with
+          | some (co, cn), _ => some (d.name, true, deref w.cells co, deref w.cells cn)
+          | Option.none, some (co, cn) => some (d.name, false, deref w.cells co, deref w.cells cn)
+          | Option.none, Option.none => Option.none),
         attrs := (sortStr ob.attrs).map (fun kv => (kv.1, renderVal w order corder kv.2)),
         watchers := c.params.filterMap (fun d =>
           match lookup ob.watchers d.name with
@@ -184,7 +193,10 @@ def watcherOKB (no : Nat) (wt : Watcher) : Bool := decide (wt.inst < no) && deci
 
 def objOKB (no nc : Nat) (ob : Obj) : Bool :=
   ob.values.all (fun kv => valOKB no nc kv.2) && ob.attrs.all (fun kv => valOKB no nc kv.2) &&
-  ob.watchers.all (fun kv => kv.2.all (watcherOKB no)) && ob.dyn.all (fun kv => kv.2.all (watcherOKB no))
+  ob.watchers.all (fun kv => kv.2.all (watcherOKB no)) && ob.dyn.all (fun kv => kv.2.all (watcherOKB no)) &&
+  ob.pcopies.all (fun kv => match kv.2.slots with
+    | some s => decide (s.1 < nc) && decide (s.2 < nc)
+    | Option.none => true)
 
 /-- every reference of every object points into the world -/
 def wfB (w : World) : Bool := w.objs.all (objOKB w.objs.length w.cells.length)
